@@ -139,6 +139,8 @@ PROPS["C06"] = {
     "harnesses": [
         {"pkg": "command", "name": "VerifC06_Stop", "quick": {}, "thorough": {}, "native": False,
          "bounds": {"signal": "full int64", "pid/pgid": "[2,2^22]", "parent_only": "both", "getpgid": "ok/error"}},
+        {"pkg": "app", "name": "VerifC06_ProjectTimeout", "quick": {"d": 0}, "thorough": {"d": 1}, "replay_repeat": 4, "native_timeout": 30,
+         "bounds": {"scenario": "ordered shutdown of app -> db; app needs 1..3 s to die, db (timeout_seconds 3) 0..2 s", "virtual time": "yes"}},
         {"pkg": "app", "name": "VerifC06_Escalation", "quick": {"d": 0}, "thorough": {"d": 1}, "native": False, "reach": ["end", "escalated"],
          "bounds": {"signal": "{0,2,15}", "timeout_seconds": "{0,2}", "parent_only": "both", "shutdown.command": "none / succeeds / fails / runs into its timeout",
                     "child": "reacts to the signal or ignores SIGTERM; dies at once or only when nothing else can happen", "virtual time": "yes"}},
@@ -161,6 +163,8 @@ PROPS["C19"] = {
 
 PROPS["C03"] = {
     "harnesses": [
+        {"pkg": "app", "name": "VerifC03_Daemon", "quick": {"d": 0}, "thorough": {"d": 1}, "native": False,
+         "bounds": {"N": 2, "scenario": "launched daemon with a shutdown command that succeeds / fails / runs into its timeout, plus an ordinary process; project shutdown"}},
         {"pkg": "app", "name": "VerifC03_AlreadyStopping", "quick": {"d": 1}, "thorough": {"d": 2}, "replay_repeat": 6,
          "bounds": {"N": 2, "scenario": "StopProcess on a slow-dying process, then ShutDownProject (ordered or not) while it is still Terminating"}},
         {"pkg": "app", "name": "VerifC03_Project", "quick": {"d": 1}, "thorough": {"d": 2}, "replay_repeat": 8, "reach": ["end", "run.returned", "shutdown.returned"],
